@@ -17,6 +17,14 @@ Search (oracle independent of the model):
       tree is small) under several configurations; which classes were reached is reported in the evidence.
       The walker tolerates nodes whose `dependencies()` needs an optional package (P2PRechunk -> distributed):
       the node's own estimate is judged and the walk continues through its array operands.
+  (d) dense metadata-only streams (harness/props_ext/c27_consistency.py): generic `da.blockwise` label patterns (every
+      1-/2-operand index pattern over {i,j,k} x every output subset, sampled 3-operand patterns, 1-4 blocks per label:
+      operands that are contracted AND broadcast at once, concatenate, new_axes, adjust_chunks, literals, repeated
+      operands) and RAW rechunk nodes for every rechunk keyword and target form (balance, method, threshold,
+      block_size_limit; tuples / ints / -1 / None / "auto" / dict / scalar; x.rechunk, da.rechunk, the Rechunk node with
+      the symbolic target), each also on an input already at the settled layout (same-chunks fixed point).
+      Internal consistency: a Rechunk / TasksRechunk node's estimate equals that of the node built directly from
+      (input chunks -> node.chunks) with the same planner keywords.
 Targeted: disagreeing helper inputs are lifted to `da.from_array(...).rechunk(...)` nodes.
 """
 from __future__ import annotations
@@ -559,7 +567,8 @@ def _has_nan(chunks):
 REACHED = {}  # node class name -> set of phases (per process; reported in the evidence)
 DEPS_IMPORT_ERRORS = {}  # class name -> count of dependencies() calls that needed a missing optional package
 PROBE_FAILS = {}  # direct same-chunks probe: class name -> programs on which it reported a non-zero estimate
-HEAVY_TASKS = 3000  # above this many tasks in some node's layer, graph-building phases / layer oracles are skipped
+DENSE_FAILS = {}  # dense streams (check_raw): signature -> failures so far (first 4 recorded)
+HEAVY_TASKS = 3000 # above this many tasks in some node's layer, graph-building phases / layer oracles are skipped
 
 
 def safe_deps(node, ArrayExpr):
@@ -757,9 +766,16 @@ def check_raw(ctx, prog, y, seen):
     from dask._task_spec import Alias
     from dask_array._expr import ArrayExpr
 
+    n0 = len(ctx.failures)
     for node in walk_tolerant(y.expr, ArrayExpr):
         if isinstance(node, ArrayExpr):
             check_node(ctx, node, prog, "raw", ArrayExpr, Alias, seen, True)
+    # a class-wide defect fails on hundreds of the dense cases: the first few per signature are recorded, the rest counted
+    for f in ctx.failures[n0:]:
+        DENSE_FAILS[f["sig"]] = DENSE_FAILS.get(f["sig"], 0) + 1
+        if DENSE_FAILS[f["sig"]] > 4:
+            ctx.failures.remove(f)
+            ctx.notes[f"dense_streams.further_failures.{f['sig']}"] = DENSE_FAILS[f["sig"]] - 4
 
 
 def check_program(ctx, da, prog, y, seen):
@@ -1083,6 +1099,11 @@ def run(ctx, replay=None):
         "catalog (harness/props_ext/c27_catalog.py: every variant of rechunk-big/chain/auto, shuffle, take, overlap, reshape, store, "
         "sources, random, linalg, routines in every run, seeded parameters and configuration, large layouts walked in the "
         "metadata-only phases); the classes defining transfer_bytes are enumerated from the source and the reached ones reported; "
+        "dense raw-tree streams (harness/props_ext/c27_consistency.py): da.blockwise over every 1-/2-operand label pattern x output subset "
+        "x block grid (1-4 blocks per label; sampled 3-operand patterns; contraction+broadcast on one operand, concatenate, new_axes, "
+        "adjust_chunks, literal / repeated operands) and raw rechunk nodes for every keyword (balance, method, threshold, block_size_limit) "
+        "and target form (tuples/ints/-1/None/auto/dict/scalar; method, function, positional, raw node), each repeated on an input already "
+        "at the settled layout; every Rechunk/TasksRechunk node is compared with the node built directly from (input chunks -> node.chunks); "
         "a case class is (helper, kind, zero/equal flags, size class) or (phase, node class, min==0, min==max, alias, unknown-sizes) "
         "or (catalog family, variant, config-method)"
     )
